@@ -14,6 +14,7 @@ import (
 	"fmt"
 	"io"
 	"math/rand/v2"
+	"strings"
 
 	"golang.org/x/crypto/ssh"
 	"golang.org/x/crypto/verifh/core"
@@ -43,7 +44,18 @@ type Scenario struct {
 	FragDen  int     `json:"frag_den"`
 	Faults   []Fault `json:"faults,omitempty"`
 	Switch   int     `json:"switch_den"`
+	// GCMCarry > 0 selects a precomputed shared secret (tools/gcmseed) whose
+	// derived AES-GCM IV has the low 32 bits of the invocation counter just
+	// below 2^32, so that the sequence carries into the upper counter half.
+	GCMCarry int `json:"gcm_carry,omitempty"`
 }
+
+// gcmCarrySeeds: (direction tag, counter n embedded in K) found by
+// tools/gcmseed for HASH = SHA-256, H = 01..20, session id = a0..bf.
+var gcmCarrySeeds = []struct {
+	c2s bool
+	n   uint64
+}{{true, 79680986}, {true, 213691298}, {true, 263298442}, {false, 234925264}, {false, 281434205}}
 
 var hashes = map[string]crypto.Hash{"sha1": crypto.SHA1, "sha256": crypto.SHA256, "sha384": crypto.SHA384, "sha512": crypto.SHA512}
 var hashNames = []string{"sha1", "sha256", "sha384", "sha512"}
@@ -105,6 +117,13 @@ func gen(r *rand.Rand, prop, tier string, index int) any {
 			s.StartSeq = uint32(r.IntN(5))
 		default:
 			s.StartSeq = 0xFFFFFFFF - uint32(r.IntN(3))
+		}
+		if ssh.VerifIsAEAD(s.Cipher) && strings.Contains(s.Cipher, "gcm") && r.IntN(3) == 0 {
+			s.GCMCarry = 1 + r.IntN(len(gcmCarrySeeds))
+			s.C2S = gcmCarrySeeds[s.GCMCarry-1].c2s
+			s.Hash = "sha256"
+			s.Sizes = genSizes(r, 36+r.IntN(10), false)
+			s.Strict = false
 		}
 		// the upper end of the payload range: up to maxPacket
 		if r.IntN(25) == 0 {
@@ -196,6 +215,22 @@ func keyed(c *core.Ctx, prop string, s *Scenario) *setup {
 	st.hash = hashes[s.Hash]
 	st.h = detBytes(s.KeySeed+1, st.hash.Size())
 	st.id = detBytes(s.KeySeed+2, st.hash.Size())
+	if s.GCMCarry > 0 {
+		k := make([]byte, 36)
+		k[3], k[4] = 32, 0x11
+		for i := 5; i < 28; i++ {
+			k[i] = byte(i)
+		}
+		n := gcmCarrySeeds[s.GCMCarry-1].n
+		for i := 0; i < 8; i++ {
+			k[35-i] = byte(n >> (8 * uint(i)))
+		}
+		st.k = k
+		st.h, st.id = make([]byte, 32), make([]byte, 32)
+		for i := range st.h {
+			st.h[i], st.id[i] = byte(i+1), byte(0xA0+i)
+		}
+	}
 	if s.Cipher == "none" {
 		return st
 	}
@@ -334,6 +369,9 @@ func runC25(c *core.Ctx, s *Scenario) {
 				return
 			}
 		}
+	}
+	if mon.GCMCarries > 0 {
+		rt.Probe("gcm-invocation-counter-32bit-carry")
 	}
 	c.State("%s|%s", s.Cipher, s.MAC)
 }
